@@ -51,6 +51,8 @@ def run(ctx):
     handler_argument_subscripts(ctx, cg, ef, entries)
     none_and_empty_guards(ctx)
     eval_closure(ctx)
+    from . import c04
+    c04.removal_is_total(ctx, ef)
     from . import c15
     c15.membership_gate(ctx)
 
